@@ -334,22 +334,45 @@ func C12Build(r *sim.Run, modes []string) *C12Stream {
 	}
 	var p *work.Production
 	var err error
-	r.Guard("packager", func() { p, err = work.Package(r, opts) })
-	if err != nil {
-		r.Violate("packager-error", "a documented-valid API history failed: %v", err)
-		return nil
+	if mode != "mfra" && t.Chance(250) {
+		// fragments written byte by byte: values from trex / tfhd defaults, first_sample_flags, several truns, traks and
+		// trex boxes in another order than the track ids (shapes the fragment API never writes)
+		p, err = work.RawProduce(r, 3, 4, 3, 4)
+		if err != nil {
+			panic(sim.HarnessAbort{Msg: "raw fragment producer: " + err.Error()})
+		}
+		r.Probe("raw-fragment-production")
+	} else {
+		r.Guard("packager", func() { p, err = work.Package(r, opts) })
+		if err != nil {
+			r.Violate("packager-error", "a documented-valid API history failed: %v", err)
+			return nil
+		}
 	}
 	// reference track as the statement defines it: first video, else first audio, else first
+	// ("first" in the order of the trak boxes in the moov, which need not be the order of the track ids)
 	refIdx := 0
 	found := false
-	for _, want := range []string{"video", "audio"} {
-		for i, tr := range p.Tracks {
-			if tr.Media == want && !found {
-				refIdx, found = i, true
+	dInit, derr := ref.DemuxStream(p.InitBytes, nil)
+	if derr != nil || dInit.Movie == nil {
+		panic(sim.HarnessAbort{Msg: "init not readable by the reference"})
+	}
+	for _, want := range []string{"vide", "soun"} {
+		for _, tr := range dInit.Movie.Tracks {
+			if tr.Handler == want && !found {
+				refIdx, found = int(tr.ID)-1, true
 			}
 		}
 	}
+	if !found && len(dInit.Movie.Tracks) > 0 {
+		refIdx = int(dInit.Movie.Tracks[0].ID) - 1
+	}
 	refID := uint32(refIdx + 1)
+	if p.Segs[0].Frags[0].Mode == "raw" && mode == "styp" {
+		for _, s := range p.Segs {
+			s.Bytes = append(work.RawStyp(), s.Bytes...)
+		}
+	}
 	// ---- assemble the stream with the delimiters of this mode
 	stream := append([]byte(nil), p.InitBytes...)
 	var groups [][]uint32 // ground truth: sequence numbers per segment
